@@ -19,6 +19,8 @@ O5M_F1 = O5M_HDR + bytes([0x10, 0x04, 0x02, 0x00, 0x02, 0x02, 0xfe])
 O5M_F2 = (O5M_HDR + bytes([0x10, 0x11, 0x0a, 0x01, 0xc8, 0x01, 0x06, 0x00, 0x01, 0x00, 0x75, 0x00, 0x0e, 0x12, 0x00, 0x6b, 0x00, 0x76, 0x00])
           + bytes([0x10, 0x05, 0x02, 0x00, 0x02, 0x02, 0x01]) + bytes([0x11, 0x06, 0x0e, 0x00, 0x02, 0x0a, 0x02, 0x01]) + bytes([0xfe]))
 O5M_F3 = O5M_HDR + bytes([0xff, 0x10, 0x04, 0x02, 0x00, 0x02, 0x02, 0xdb, 0x02, 0x01, 0x02, 0x10, 0x04, 0x02, 0x00, 0x02])      # reset, node, unknown dataset, truncated node
+# a dataset whose length needs a two-byte varint (unknown dataset type 0x50, 130 bytes), between two nodes
+O5M_F4 = O5M_HDR + bytes([0x10, 0x04, 0x02, 0x00, 0x02, 0x02]) + bytes([0x50, 0x82, 0x01]) + bytes((7 * k) & 0xff for k in range(130)) + bytes([0x10, 0x04, 0x02, 0x00, 0x02, 0x02, 0xfe])
 PBF_HDR = lambda n: bytes([0, 0, 0, 11, 0x0a, 7]) + b'OSMData' + bytes([0x18, n])
 FILES = {'o5m_f1': O5M_F1, 'o5m_f2': O5M_F2, 'o5m_f3': O5M_F3}
 
@@ -118,10 +120,11 @@ def harnesses(tier):
         Harness('o5m_small', 'chunk', h_file, jobs=[{'file': O5M_F1, 'fn': '@verif_o5m_run', 'cuts': 'all'}], setup=setup_env, testgen=gen_cuts(len(O5M_F1)),
                 desc='O5mParser decode_header + decode_data (real per-type decoders) on a 14-byte one-node file x all 8192 segmentations: same outcome and same delivered buffers as in one piece',
                 bounds='one concrete 14-byte file; all segmentations'),
-        Harness('o5m_objects', 'chunk', h_file, jobs=[{'file': O5M_F2, 'fn': '@verif_o5m_run', 'cuts': 'singles' if q else 'pairs'}, {'file': O5M_F3, 'fn': '@verif_o5m_run', 'cuts': 'singles' if q else 'pairs'}],
+        Harness('o5m_objects', 'chunk', h_file, jobs=[{'file': O5M_F2, 'fn': '@verif_o5m_run', 'cuts': 'singles' if q else 'pairs'}, {'file': O5M_F3, 'fn': '@verif_o5m_run', 'cuts': 'singles' if q else 'pairs'},
+                                                       {'file': O5M_F4, 'fn': '@verif_o5m_run', 'cuts': 'singles'}],
                 setup=setup_env, testgen=gen_cuts(len(O5M_F2)),
                 desc='o5m files with author info, inline strings, a string back-reference, a way, reset, unknown dataset and a truncated dataset x %s: same result as in one piece' % ('every single cut and one-byte-at-a-time' if q else 'every single cut, every pair of cuts, one byte at a time'),
-                bounds='two concrete files (%d and %d bytes)' % (len(O5M_F2), len(O5M_F3))),
+                bounds='three concrete files (%d, %d and %d bytes; the last has a dataset with a two-byte length, single cuts only)' % (len(O5M_F2), len(O5M_F3), len(O5M_F4))),
         Harness('pbf_framing', 'chunk', h_file, jobs=[{'file': pbf, 'fn': '@verif_pbf_frames', 'cuts': 'singles' if q else 'pairs', 'sym': pbf_sym}, {'file': pbf[:-1], 'fn': '@verif_pbf_frames', 'cuts': 'singles' if q else 'pairs'}],
                 setup=setup_env, testgen=gen_cuts(len(pbf), pbf_sym),
                 desc='PBFParser blob framing (length prefix, BlobHeader, blob bytes via ensure_available_in_input_queue / pop_from_input_queue) on a two-blob stream and its truncation x %s: same blobs and same outcome' % ('single cuts' if q else 'single cuts and pairs'),
